@@ -41,3 +41,7 @@ Ltac case_if :=
   end.
 
 Ltac inv H := inversion H; subst; clear H.
+
+(* every extraction unit lists this, so that nat, N, Z and positive are always extracted
+   (ocaml/common.ml is compiled against each unit) *)
+Definition ex_base : nat * N * Z * positive := (O, N0, Z0, xH).
